@@ -11,13 +11,13 @@ ID = "C04"
 RULE = (
     "Histories: sequences of declaration events over names T, U (V in the random part) in nested scopes - typedef, object "
     "(plain / pointer with initializer), function declaration, enumerator, struct tag, struct member, prototype-only parameter, "
-    "label, function definition (plain / with the name as parameter), block open/close, function end - rendered as one "
+    "label, function definition (plain / with the name as parameter / with the name as its own name), block open/close, function end - rendered as one "
     "translation unit; after EVERY event, for EVERY name, probes 'N * y;', '(N)(y);', 'sizeof(N) + w;', 'N (z);' (block scope) "
     "or 'int p = sizeof(N);', 'int q = (N)(1);' (file scope) with fresh identifiers. A reference scope model (C99 6.2.1/6.2.3: "
     "stack of ordinary-identifier scopes; parameters live in the body's block; tags, members, labels, prototype parameters "
     "never affect it) predicts whether N names a type, hence the AST class of each probe (Decl vs BinaryOp, Cast vs FuncCall, "
     "sizeof(Typename) vs sizeof(ID), Decl vs FuncCall). Exhaustive: all event sequences of length <= 3 plus every 5th of length "
-    "4 (quick) / all of length <= 4 plus every 7th of length 5 (thorough) over the 24-event alphabet; Hypothesis: histories of "
+    "4 (quick) / all of length <= 4 plus every 7th of length 5 (thorough) over the 26-event alphabet; Hypothesis: histories of "
     "up to 25 events, 3 names. Histories the model deems invalid C are skipped; events that trigger a known finding (an "
     "enumerator or label spelled like a visible typedef: F15, F16) are skipped and counted. Non-trivial: the history contains "
     "a shadowing of a typedef by an inner declaration and a scope exit after it; distinct by construction / by hash."
@@ -25,7 +25,7 @@ RULE = (
 ASSUMPTIONS = ["the reference scope model in this module (written from C99 6.2.1, not from c_parser.py)"]
 
 NAMES = ["T", "U"]
-KINDS = ["td", "obj", "objp", "fn", "enumr", "tag", "member", "proto", "label", "funcopen", "funcparam", "open", "close", "endfunc"]
+KINDS = ["td", "obj", "objp", "fn", "enumr", "tag", "member", "proto", "label", "funcopen", "funcparam", "funcnamed", "open", "close", "endfunc"]
 NAMELESS = ("funcopen", "open", "close", "endfunc")
 EVENTS = [(k, n) for k in KINDS for n in NAMES if not (k in NAMELESS and n != "T")]
 
@@ -151,6 +151,19 @@ def build(seq, names=NAMES, probe_kinds=None):
             if v % len(forms) == 5:
                 st.setdefault("knr", set()).add(n)
             scopes.append({n: "obj"})
+            st["in_func"] = True
+            st["depth"] = 0
+        elif ev == "funcnamed":
+            # a function definition whose OWN name is n: the name belongs to the
+            # enclosing (file) scope, its body is an inner scope that may re-use it
+            if in_func:
+                raise Invalid("nested function")
+            if here is not None:
+                raise Invalid("redeclaration in the same scope")
+            forms = ["int {n}(void) {{", "void {n}(int a{f}) {{", "int *{n}(int a{f}, ...) {{", "int {n}(a{f}) int a{f}; {{", "static int ({n})(void) {{"]
+            out.append(forms[v % len(forms)].format(n=n, f=f))
+            cur[n] = "obj"
+            scopes.append({})
             st["in_func"] = True
             st["depth"] = 0
         elif ev == "open":
